@@ -13,7 +13,10 @@ DERIVE_TRAITS = {
 }
 ITER_TRAITS = ['core::iter::traits::iterator::Iterator', 'core::iter::traits::double_ended::DoubleEndedIterator',
                'core::iter::traits::exact_size::ExactSizeIterator', 'core::iter::traits::marker::FusedIterator']
-BUILTIN_DERIVES = {'core::clone::Clone', 'core::marker::Copy', 'core::clone::TrivialClone', 'core::cmp::PartialEq', 'core::cmp::Eq', 'core::marker::StructuralPartialEq'}
+BUILTIN_DERIVES = {'core::clone::Clone', 'core::marker::Copy', 'core::clone::TrivialClone'}
+# traits the witness itself derives next to EnumTools (decl['derives']): their impls are not the derive's
+STD_DERIVE_TRAITS = {'PartialEq': ['core::cmp::PartialEq', 'core::marker::StructuralPartialEq'], 'Eq': ['core::cmp::Eq'], 'PartialOrd': ['core::cmp::PartialOrd'], 'Ord': ['core::cmp::Ord'],
+                     'Hash': ['core::hash::Hash'], 'Debug': ['core::fmt::Debug'], 'Default': ['core::default::Default']}
 
 def want_vis(inst, param_vis):
     """resolved visibility the documentation promises for a `vis` parameter value"""
@@ -114,8 +117,11 @@ def check_instance(inst, F, ctx, extra):
         for tr in ITER_TRAITS:
             want_impls.add((tr, sp))
     got = set()
+    own = set(BUILTIN_DERIVES)
+    for dname in (inst.decl.get('derives') or '').replace(' ', '').split(','):
+        own |= set(STD_DERIVE_TRAITS.get(dname, []))
     for im in inst.impls:
-        if 'trait' not in im or not im['from_expansion'] or im['trait'] in BUILTIN_DERIVES:
+        if 'trait' not in im or not im['from_expansion'] or im['trait'] in own:
             continue
         st = cr.T(im['self_ty'])
         if st.get('path') == inst.enum_path:
